@@ -15,6 +15,16 @@ from . import util
 from . import queue
 
 
+def _copy_result(result):
+    # Arrays are mutable: hand out a copy so that nothing the caller does to the
+    # result (e.g., `env *= 2`) can alter what later calls return.
+    if isinstance(result, np.ndarray):
+        return result.copy()
+    if isinstance(result, tuple):
+        return tuple(_copy_result(r) for r in result)
+    return result
+
+
 def fast_cache(f):
     cache = {}
     kwd_marker = object()
@@ -23,7 +33,7 @@ def fast_cache(f):
         key = args + (kwd_marker,) + tuple(sorted(kw.items()))
         if key not in cache:
             cache[key] = f(*args, **kw)
-        return cache[key]
+        return _copy_result(cache[key])
     return wrapper
 
 
